@@ -46,6 +46,9 @@ def util_xopen_decorators : List String := []
 /-- the signature of dataiter/util.py: xopen: parameters in order, with the source text of their defaults -/
 def util_xopen_signature : List String := ["path", "mode='r'", "**kwargs"]
 
+/-- the calls of dataiter/util.py: xopen in the order Python makes them along the source text -/
+def util_xopen_call_order : List String := ["kwargs.setdefault", "str", "str(path).endswith", "kwargs.setdefault", "bz2.open", "str", "str(path).endswith", "kwargs.setdefault", "gzip.open", "str", "str(path).endswith", "lzma.open", "open"]
+
 /-- dataiter/data_frame.py: DataFrame.write_csv (sha256 of the function source: 4f9ea5601792ebd1) -/
 def DataFrame_write_csv (truth : Term → Bool) : Out :=
   let table' : Term := (Term.app ".to_arrow" [(Term.sym "self")]);
@@ -67,6 +70,9 @@ def DataFrame_write_csv_decorators : List String := []
 /-- the signature of dataiter/data_frame.py: DataFrame.write_csv: parameters in order, with the source text of their defaults -/
 def DataFrame_write_csv_signature : List String := ["self", "path", "*", "encoding='utf-8'", "header=True", "sep=','"]
 
+/-- the calls of dataiter/data_frame.py: DataFrame.write_csv in the order Python makes them along the source text -/
+def DataFrame_write_csv_call_order : List String := ["self.to_arrow", "util.makedirs_for_file", "util.xopen", "csv.WriteOptions", "csv.write_csv", "codecs.lookup", "codecs.lookup", "util.xopen", "f.read", "util.xopen", "f.write"]
+
 /-- dataiter/data_frame.py: DataFrame.write_json (sha256 of the function source: a6454a01f613f718) -/
 def DataFrame_write_json (truth : Term → Bool) : Out :=
   Out.ret [] (Term.app ".write_json" [(Term.app ".to_list_of_dicts" [(Term.sym "self")]), (Term.sym "path"), (Term.app "=encoding" [(Term.sym "encoding")]), (Term.app "=**" [(Term.sym "kwargs")])])
@@ -76,6 +82,9 @@ def DataFrame_write_json_decorators : List String := []
 
 /-- the signature of dataiter/data_frame.py: DataFrame.write_json: parameters in order, with the source text of their defaults -/
 def DataFrame_write_json_signature : List String := ["self", "path", "*", "encoding='utf-8'", "**kwargs"]
+
+/-- the calls of dataiter/data_frame.py: DataFrame.write_json in the order Python makes them along the source text -/
+def DataFrame_write_json_call_order : List String := ["self.to_list_of_dicts", "self.to_list_of_dicts().write_json"]
 
 /-- dataiter/data_frame.py: DataFrame.write_npz (sha256 of the function source: ec29d9647c02c3b2) -/
 def DataFrame_write_npz (truth : Term → Bool) : Out :=
@@ -90,6 +99,9 @@ def DataFrame_write_npz_decorators : List String := []
 /-- the signature of dataiter/data_frame.py: DataFrame.write_npz: parameters in order, with the source text of their defaults -/
 def DataFrame_write_npz_signature : List String := ["self", "path", "*", "compress=False"]
 
+/-- the calls of dataiter/data_frame.py: DataFrame.write_npz in the order Python makes them along the source text -/
+def DataFrame_write_npz_call_order : List String := ["util.makedirs_for_file", "savez"]
+
 /-- dataiter/data_frame.py: DataFrame.read_npz (sha256 of the function source: f9bc74d2a12f89e4) -/
 def DataFrame_read_npz (truth : Term → Bool) : Out :=
   let eff0 : Term := (Term.app "with" [(Term.app "np.load" [(Term.sym "path"), (Term.app "=allow_pickle" [(Term.sym "allow_pickle")])])]);
@@ -100,6 +112,9 @@ def DataFrame_read_npz_decorators : List String := ["classmethod"]
 
 /-- the signature of dataiter/data_frame.py: DataFrame.read_npz: parameters in order, with the source text of their defaults -/
 def DataFrame_read_npz_signature : List String := ["cls", "path", "*", "allow_pickle=True"]
+
+/-- the calls of dataiter/data_frame.py: DataFrame.read_npz in the order Python makes them along the source text -/
+def DataFrame_read_npz_call_order : List String := ["np.load", "cls"]
 
 /-- dataiter/data_frame.py: DataFrame.write_parquet (sha256 of the function source: 9e9dda72d6e8f2e6) -/
 def DataFrame_write_parquet (truth : Term → Bool) : Out :=
@@ -113,6 +128,9 @@ def DataFrame_write_parquet_decorators : List String := []
 
 /-- the signature of dataiter/data_frame.py: DataFrame.write_parquet: parameters in order, with the source text of their defaults -/
 def DataFrame_write_parquet_signature : List String := ["self", "path", "**kwargs"]
+
+/-- the calls of dataiter/data_frame.py: DataFrame.write_parquet in the order Python makes them along the source text -/
+def DataFrame_write_parquet_call_order : List String := ["self.to_arrow", "util.makedirs_for_file", "pq.write_table"]
 
 /-- dataiter/data_frame.py: DataFrame.write_pickle (sha256 of the function source: 4a2fd8f9b42efb6b) -/
 def DataFrame_write_pickle (truth : Term → Bool) : Out :=
@@ -128,6 +146,9 @@ def DataFrame_write_pickle_decorators : List String := []
 /-- the signature of dataiter/data_frame.py: DataFrame.write_pickle: parameters in order, with the source text of their defaults -/
 def DataFrame_write_pickle_signature : List String := ["self", "path"]
 
+/-- the calls of dataiter/data_frame.py: DataFrame.write_pickle in the order Python makes them along the source text -/
+def DataFrame_write_pickle_call_order : List String := ["util.makedirs_for_file", "util.xopen", "np.array", "self.items", "pickle.dump"]
+
 /-- dataiter/data_frame.py: DataFrame.read_pickle (sha256 of the function source: d91bb1e64a6c829b) -/
 def DataFrame_read_pickle (truth : Term → Bool) : Out :=
   let eff0 : Term := (Term.app "with" [(Term.app "util.xopen" [(Term.sym "path"), (Term.sym "'rb'")])]);
@@ -138,6 +159,9 @@ def DataFrame_read_pickle_decorators : List String := ["classmethod"]
 
 /-- the signature of dataiter/data_frame.py: DataFrame.read_pickle: parameters in order, with the source text of their defaults -/
 def DataFrame_read_pickle_signature : List String := ["cls", "path"]
+
+/-- the calls of dataiter/data_frame.py: DataFrame.read_pickle in the order Python makes them along the source text -/
+def DataFrame_read_pickle_call_order : List String := ["util.xopen", "pickle.load", "cls"]
 
 /-- dataiter/list_of_dicts.py: ListOfDicts.write_csv (sha256 of the function source: eb4d763f80c1737a) -/
 def ListOfDicts_write_csv (truth : Term → Bool) : Out :=
@@ -159,6 +183,9 @@ def ListOfDicts_write_csv_decorators : List String := []
 /-- the signature of dataiter/list_of_dicts.py: ListOfDicts.write_csv: parameters in order, with the source text of their defaults -/
 def ListOfDicts_write_csv_signature : List String := ["self", "path", "*", "encoding='utf-8'", "header=True", "sep=','"]
 
+/-- the calls of dataiter/list_of_dicts.py: ListOfDicts.write_csv in the order Python makes them along the source text -/
+def ListOfDicts_write_csv_call_order : List String := ["ValueError", "self.keys", "list", "util.makedirs_for_file", "util.xopen", "csv.DictWriter", "writer.writeheader", "dict.fromkeys", "writer.writerow"]
+
 /-- dataiter/list_of_dicts.py: ListOfDicts.write_json (sha256 of the function source: 97eb7406cf5131f7) -/
 def ListOfDicts_write_json (truth : Term → Bool) : Out :=
   let eff0 : Term := (Term.app ".setdefault" [(Term.sym "kwargs"), (Term.sym "'default'"), (Term.sym "str")]);
@@ -177,6 +204,9 @@ def ListOfDicts_write_json_decorators : List String := []
 /-- the signature of dataiter/list_of_dicts.py: ListOfDicts.write_json: parameters in order, with the source text of their defaults -/
 def ListOfDicts_write_json_signature : List String := ["self", "path", "*", "encoding='utf-8'", "**kwargs"]
 
+/-- the calls of dataiter/list_of_dicts.py: ListOfDicts.write_json in the order Python makes them along the source text -/
+def ListOfDicts_write_json_call_order : List String := ["kwargs.setdefault", "kwargs.setdefault", "kwargs.setdefault", "util.makedirs_for_file", "util.xopen", "json.JSONEncoder", "encoder.iterencode", "f.write", "f.write"]
+
 /-- dataiter/list_of_dicts.py: ListOfDicts.write_pickle (sha256 of the function source: 06df17b07ca89616) -/
 def ListOfDicts_write_pickle (truth : Term → Bool) : Out :=
   let eff0 : Term := (Term.app "util.makedirs_for_file" [(Term.sym "path")]);
@@ -191,6 +221,9 @@ def ListOfDicts_write_pickle_decorators : List String := []
 /-- the signature of dataiter/list_of_dicts.py: ListOfDicts.write_pickle: parameters in order, with the source text of their defaults -/
 def ListOfDicts_write_pickle_signature : List String := ["self", "path"]
 
+/-- the calls of dataiter/list_of_dicts.py: ListOfDicts.write_pickle in the order Python makes them along the source text -/
+def ListOfDicts_write_pickle_call_order : List String := ["util.makedirs_for_file", "util.xopen", "dict", "pickle.dump"]
+
 /-- dataiter/list_of_dicts.py: ListOfDicts.read_pickle (sha256 of the function source: 40aaf035a2033dcf) -/
 def ListOfDicts_read_pickle (truth : Term → Bool) : Out :=
   let eff0 : Term := (Term.app "with" [(Term.app "util.xopen" [(Term.sym "path"), (Term.sym "'rb'")])]);
@@ -201,5 +234,8 @@ def ListOfDicts_read_pickle_decorators : List String := ["classmethod"]
 
 /-- the signature of dataiter/list_of_dicts.py: ListOfDicts.read_pickle: parameters in order, with the source text of their defaults -/
 def ListOfDicts_read_pickle_signature : List String := ["cls", "path"]
+
+/-- the calls of dataiter/list_of_dicts.py: ListOfDicts.read_pickle in the order Python makes them along the source text -/
+def ListOfDicts_read_pickle_call_order : List String := ["util.xopen", "pickle.load", "cls"]
 
 end DI.Gen
